@@ -79,12 +79,14 @@ def concretize(model, nondets, literals):
         if k == "atom" and n in model:
             codes.add(int(model[n]))
     for name, args, v in ufs:
-        if name in ("trim", "cat", "toupper", "tolower", "quote", "trimprefix", "trimsuffix", "replaceall", "strlen", "containsany", "contains", "hasprefix", "hassuffix", "cleanpath", "isabs", "pathjoin"):
-            for a in args:
+        if name in ("trim", "cat", "toupper", "tolower", "quote", "trimprefix", "trimsuffix", "replaceall", "strlen", "containsany", "contains", "hasprefix", "hassuffix", "cleanpath", "isabs", "pathjoin", "vislen"):
+            for a in (args[:1] if name in ("vislen", "strlen") else args):
                 try:
                     codes.add(int(a))
                 except ValueError:
                     pass
+            if name in ("vislen", "strlen", "contains", "containsany", "hasprefix", "hassuffix", "isabs"):
+                continue
             try:
                 codes.add(int(v))
             except ValueError:
@@ -173,6 +175,28 @@ def concretize(model, nondets, literals):
                 core = strs[c].strip(" ")
                 pad = "x" * (n - len(strs[c].encode()))
                 strs[c] = strs[c].replace(core, core + pad, 1) if core else strs[c] + pad
+
+    # display-width facts (width abstraction units): vislen(x) = n, optionally with strlen(x) = m
+    vis, slen = {}, {}
+    for name, args, v in ufs:
+        try:
+            if name == "vislen":
+                vis[int(args[0])] = int(v)
+            elif name == "strlen":
+                slen[int(args[0])] = int(v)
+        except ValueError:
+            pass
+    for k, (c, n) in enumerate(sorted(vis.items())):
+        if c in code2lit or c in forced or c not in strs or n > (1 << 12):
+            continue
+        tag = "%c%c" % (0x41 + k // 26, 0x41 + k % 26)
+        if slen.get(c) == n:
+            # printable ASCII, byte length = width
+            strs[c] = ("Z" + tag + "x" * (n - 3)) if n >= 3 else tag[:n]
+        else:
+            # zero-width unique prefix (control characters), then n columns
+            strs[c] = "\x01" + "%c%c" % (2 + k // 20, 2 + k % 20) + "x" * n
+        info["fresh_atoms"][str(c)] = strs[c]
 
     # honour trim facts where the model says trimming changes the string
     ws = 0
